@@ -252,13 +252,11 @@ pub mod std_fs {
     { unimplemented!() }
 }
 
-// std: cloning an Rc is a pointer copy. vstd states `Option<&T>::cloned` through `cloned(a, b)`; these axioms say what
-// `cloned` is for the Rc types the caches hold. Used function-locally (`broadcast use` in the body) only.
+// std: cloning an Rc is a pointer copy. vstd states `Option<&T>::cloned` through `cloned(a, b)`; this axiom says what
+// `cloned` is for an Rc. Used function-locally (`broadcast use` in the body) only.
 pub mod clax {
     use super::*;
-    pub broadcast axiom fn axiom_cloned_rc_value(a: Rc<Value>, b: Rc<Value>)
-        ensures #[trigger] cloned::<Rc<Value>>(a, b) ==> a == b;
-    pub broadcast axiom fn axiom_cloned_rcstr(a: Rc<str>, b: Rc<str>)
-        ensures #[trigger] cloned::<Rc<str>>(a, b) ==> a == b;
-    pub broadcast group group_clone_axioms { axiom_cloned_rc_value, axiom_cloned_rcstr, }
+    pub broadcast axiom fn axiom_cloned_rc<T: ?Sized>(a: Rc<T>, b: Rc<T>)
+        ensures #[trigger] cloned::<Rc<T>>(a, b) ==> a == b;
+    pub broadcast group group_clone_axioms { axiom_cloned_rc, }
 }
